@@ -77,8 +77,8 @@ class View:
         return z3.And(0 <= i, i < s.n)
 
 
-def shape(c, old=False):
-    v = View(c, old)
+def shape(c, old=False, selfname="self"):
+    v = View(c, old, selfname)
     return [
         ("len>=0", v.n >= 0),
         ("self-allocated", z3.Select(v.alloc, v.s)),
